@@ -135,7 +135,9 @@ func (x *Exec) atReturn(fr *Frame, st *State, vals []Term, pos token.Pos) {
 	args := append(append([]Term{}, x.rootParams...), vals...)
 	for i, cl := range c.Ensures {
 		t := x.evalGhost(fr, x.ghostOf(c, cl.Ghost), args, nil, st, fr.entry)
+		x.curGhost = cl.Ghost
 		x.oblige(fr, "ensures", fmt.Sprintf("post %d: %s", i+1, cl.Orig), st, t, pos)
+		x.curGhost = ""
 	}
 }
 
